@@ -1635,6 +1635,162 @@ impl ProtocolState {
 //@end
 }
 
+// the tracked tables after any number of completions: operations only disappear (never change), and every id table keeps
+// exactly the entries whose operation survives
+pub open spec fn shrunk(pre: ProtocolState, post: ProtocolState) -> bool {
+    &&& forall|k: u64| #[trigger] post.operations@.contains_key(k) ==> pre.operations@.contains_key(k) && post.operations@[k] == pre.operations@[k]
+    &&& forall|p: u16| #[trigger] post.allocated_packet_ids@.contains_key(p) <==> pre.allocated_packet_ids@.contains_key(p) && post.operations@.contains_key(pre.allocated_packet_ids@[p])
+    &&& forall|p: u16| #[trigger] post.allocated_packet_ids@.contains_key(p) ==> post.allocated_packet_ids@[p] == pre.allocated_packet_ids@[p]
+    &&& forall|p: u16| #[trigger] post.pending_publish_operations@.contains_key(p) <==> pre.pending_publish_operations@.contains_key(p) && post.operations@.contains_key(pre.pending_publish_operations@[p])
+    &&& forall|p: u16| #[trigger] post.pending_publish_operations@.contains_key(p) ==> post.pending_publish_operations@[p] == pre.pending_publish_operations@[p]
+    &&& forall|p: u16| #[trigger] post.pending_non_publish_operations@.contains_key(p) <==> pre.pending_non_publish_operations@.contains_key(p) && post.operations@.contains_key(pre.pending_non_publish_operations@[p])
+    &&& forall|p: u16| #[trigger] post.pending_non_publish_operations@.contains_key(p) ==> post.pending_non_publish_operations@[p] == pre.pending_non_publish_operations@[p]
+}
+
+pub proof fn lemma_shrunk_refl(s: ProtocolState)
+    requires s.wf_tables(),
+    ensures shrunk(s, s),
+{
+}
+
+// one more completion (or a no-op on an untracked id) keeps `shrunk`
+pub proof fn lemma_shrunk_step(pre: ProtocolState, mid: ProtocolState, post: ProtocolState, id: u64)
+    requires pre.wf_tables(), mid.wf_tables(), shrunk(pre, mid),
+        mid.operations@.contains_key(id) ==> removed_exactly(mid, post, id),
+        !mid.operations@.contains_key(id) ==> tables_unchanged(mid, post),
+    ensures shrunk(pre, post),
+        forall|k: u64| #[trigger] post.operations@.contains_key(k) <==> mid.operations@.contains_key(k) && k != id,
+{
+    if mid.operations@.contains_key(id) {
+        let op = mid.operations@[id];
+        assert forall|p: u16| #[trigger] post.allocated_packet_ids@.contains_key(p) <==> pre.allocated_packet_ids@.contains_key(p) && post.operations@.contains_key(pre.allocated_packet_ids@[p]) by {
+            if mid.allocated_packet_ids@.contains_key(p) { assert(mid.operations@.contains_key(mid.allocated_packet_ids@[p])); }
+        }
+        assert forall|p: u16| #[trigger] post.pending_publish_operations@.contains_key(p) <==> pre.pending_publish_operations@.contains_key(p) && post.operations@.contains_key(pre.pending_publish_operations@[p]) by {
+            if mid.pending_publish_operations@.contains_key(p) { assert(mid.operations@.contains_key(mid.pending_publish_operations@[p])); }
+        }
+        assert forall|p: u16| #[trigger] post.pending_non_publish_operations@.contains_key(p) <==> pre.pending_non_publish_operations@.contains_key(p) && post.operations@.contains_key(pre.pending_non_publish_operations@[p]) by {
+            if mid.pending_non_publish_operations@.contains_key(p) { assert(mid.operations@.contains_key(mid.pending_non_publish_operations@[p])); }
+        }
+    }
+}
+
+pub proof fn lemma_push_contains<A>(s: Seq<A>, a: A)
+    ensures forall|x: A| #[trigger] s.push(a).contains(x) <==> (s.contains(x) || x == a),
+{
+    assert forall|x: A| #[trigger] s.push(a).contains(x) <==> (s.contains(x) || x == a) by {
+        if s.contains(x) { let i = choose|i: int| 0 <= i < s.len() && s[i] == x; assert(s.push(a)[i] == x); }
+        assert(s.push(a)[s.len() as int] == a);
+        if s.push(a).contains(x) { let i = choose|i: int| 0 <= i < s.push(a).len() && s.push(a)[i] == x; if i < s.len() { assert(s[i] == x); } }
+    }
+}
+
+pub open spec fn state_after_failures(pre: ProtocolStateType, post: ProtocolStateType) -> bool {
+    post == pre || (pre == ProtocolStateType::PendingDisconnect && post == ProtocolStateType::Halted)
+}
+
+impl ProtocolState {
+//@fn gneiss-mqtt/src/protocol.rs ProtocolState::complete_operation_sequence_as_failure props=C01,C15,C18,C11 desugar
+    requires old(self).wf(), iterator.obeys_prophetic_iter_laws(), iterator.decrease() is Some,
+        forall|u: ()| error_fn.requires(u),
+    ensures final(self).wf(),
+        completion_frame(*old(self), *final(self)),
+        final(self).next_ping_timepoint == old(self).next_ping_timepoint,
+        shrunk(*old(self), *final(self)),
+        // exactly the listed operations are failed: each of them is gone, nothing else is
+        forall|k: u64| #[trigger] final(self).operations@.contains_key(k) <==> old(self).operations@.contains_key(k) && !iterator.remaining().contains(k),
+        state_after_failures(old(self).state, final(self).state),
+        old(self).state == ProtocolStateType::Disconnected ==> r is Ok,
+        (old(self).cur_ok() && (old(self).current_operation matches Some(c) ==> !iterator.remaining().contains(c))) ==> final(self).cur_ok(),
+//@@loop 0 manual=it
+            invariant it.obeys_prophetic_iter_laws(), it.decrease() is Some,
+                forall|u: ()| error_fn.requires(u),
+                all == consumed + it.remaining(),
+                self.wf(), old(self).wf(),
+                completion_frame(*old(self), *self),
+                self.next_ping_timepoint == old(self).next_ping_timepoint,
+                shrunk(*old(self), *self),
+                forall|k: u64| #[trigger] self.operations@.contains_key(k) <==> old(self).operations@.contains_key(k) && !consumed.contains(k),
+                state_after_failures(old(self).state, self.state),
+                old(self).state == ProtocolStateType::Disconnected ==> res is Ok,
+                (old(self).cur_ok() && (old(self).current_operation matches Some(c) ==> !all.contains(c))) ==> self.cur_ok(),
+            ensures all == consumed,
+            decreases it.decrease()->Some_0,
+//@@at before "let mut it = (iterator).into_iter();"
+        let ghost all = iterator.remaining();
+        let ghost mut consumed: Seq<u64> = Seq::empty();
+        proof { lemma_shrunk_refl(*old(self)); }
+//@@at before "res = {"
+            let ghost mid = *self;
+            let ghost pre_cons = consumed;
+            proof { consumed = consumed.push(item); lemma_push_contains(pre_cons, item); }
+//@@at after "};"
+            proof {
+                lemma_shrunk_step(*old(self), mid, *self, item);
+                assert(all.contains(item)) by { assert(all[pre_cons.len() as int] == item); }
+            }
+//@end
+}
+
+// C04/C01: of the acknowledgements/pings still queued at a disconnection only a QoS2 PUBREL is kept (its publish is re-sent from the in-flight table)
+pub open spec fn hp_retained(s: ProtocolState, id: u64) -> bool {
+    s.operations@.contains_key(id) && s.operations@[id].qos2_pubrel is Some
+}
+
+impl ProtocolState {
+//@fn gneiss-mqtt/src/protocol.rs ProtocolState::partition_high_priority_queue_for_disconnect props=C04,C01,C11 desugar
+    requires iterator.obeys_prophetic_iter_laws(), iterator.decrease() is Some,
+    ensures
+        forall|x: u64| r.0@.contains(x) <==> iterator.remaining().contains(x) && hp_retained(*self, x),
+        forall|x: u64| r.1@.contains(x) <==> iterator.remaining().contains(x) && !hp_retained(*self, x),
+//@@loop 0 manual=it
+            invariant it.obeys_prophetic_iter_laws(), it.decrease() is Some,
+                all == consumed + it.remaining(),
+                forall|x: u64| retained@.contains(x) <==> consumed.contains(x) && hp_retained(*self, x),
+                forall|x: u64| rejected@.contains(x) <==> consumed.contains(x) && !hp_retained(*self, x),
+            ensures all == consumed,
+            decreases it.decrease()->Some_0,
+//@@at before "let mut it = (iterator).into_iter();"
+        let ghost all = iterator.remaining();
+        let ghost mut consumed: Seq<u64> = Seq::empty();
+//@@at before "if self.should_retain_high_priority_operation(id) {"
+            let ghost pre_cons = consumed;
+            proof { consumed = consumed.push(id); }
+            let ghost pre_ret = retained@;
+            let ghost pre_rej = rejected@;
+//@@at after "retained.push_back(id);"
+                proof {
+                    assert(retained@ == pre_ret.push(id) && rejected@ == pre_rej);
+                    assert forall|x: u64| retained@.contains(x) <==> consumed.contains(x) && hp_retained(*self, x) by {
+                        if pre_ret.contains(x) { let i = choose|i: int| 0 <= i < pre_ret.len() && pre_ret[i] == x; assert(retained@[i] == x); }
+                        if pre_cons.contains(x) { let i = choose|i: int| 0 <= i < pre_cons.len() && pre_cons[i] == x; assert(consumed[i] == x); }
+                        assert(retained@[pre_ret.len() as int] == id); assert(consumed[pre_cons.len() as int] == id);
+                        if retained@.contains(x) { let i = choose|i: int| 0 <= i < retained@.len() && retained@[i] == x; if i < pre_ret.len() { assert(pre_ret[i] == x); } }
+                        if consumed.contains(x) { let i = choose|i: int| 0 <= i < consumed.len() && consumed[i] == x; if i < pre_cons.len() { assert(pre_cons[i] == x); } }
+                    }
+                    assert forall|x: u64| rejected@.contains(x) <==> consumed.contains(x) && !hp_retained(*self, x) by {
+                        if pre_cons.contains(x) { let i = choose|i: int| 0 <= i < pre_cons.len() && pre_cons[i] == x; assert(consumed[i] == x); }
+                        if consumed.contains(x) { let i = choose|i: int| 0 <= i < consumed.len() && consumed[i] == x; if i < pre_cons.len() { assert(pre_cons[i] == x); } }
+                    }
+                }
+//@@at after "rejected.push_back(id);"
+                proof {
+                    assert(rejected@ == pre_rej.push(id) && retained@ == pre_ret);
+                    assert forall|x: u64| rejected@.contains(x) <==> consumed.contains(x) && !hp_retained(*self, x) by {
+                        if pre_rej.contains(x) { let i = choose|i: int| 0 <= i < pre_rej.len() && pre_rej[i] == x; assert(rejected@[i] == x); }
+                        if pre_cons.contains(x) { let i = choose|i: int| 0 <= i < pre_cons.len() && pre_cons[i] == x; assert(consumed[i] == x); }
+                        assert(rejected@[pre_rej.len() as int] == id); assert(consumed[pre_cons.len() as int] == id);
+                        if rejected@.contains(x) { let i = choose|i: int| 0 <= i < rejected@.len() && rejected@[i] == x; if i < pre_rej.len() { assert(pre_rej[i] == x); } }
+                        if consumed.contains(x) { let i = choose|i: int| 0 <= i < consumed.len() && consumed[i] == x; if i < pre_cons.len() { assert(pre_cons[i] == x); } }
+                    }
+                    assert forall|x: u64| retained@.contains(x) <==> consumed.contains(x) && hp_retained(*self, x) by {
+                        if pre_cons.contains(x) { let i = choose|i: int| 0 <= i < pre_cons.len() && pre_cons[i] == x; assert(consumed[i] == x); }
+                        if consumed.contains(x) { let i = choose|i: int| 0 <= i < consumed.len() && consumed[i] == x; if i < pre_cons.len() { assert(pre_cons[i] == x); } }
+                    }
+                }
+//@end
+}
+
 // =====================================================================================================
 // entry points (C11, C07, C15, C01)
 // =====================================================================================================
